@@ -231,6 +231,11 @@ def judgeC06 (o : Obs) : Verdict :=
       if e.tag == "caught" && arg e 0 == 1 && arg e 1 == t - 1000 then some (arg e 2) else none)
     -- the cancellation that takes effect is the first one issued while the task was not finished; later ones do nothing
     let effective := o.events.filter (fun e => e.tag == "cancel" && arg e 0 == t && (arg e 1 == 1 || arg e 1 == 2))
+    -- cancellations the payload swallowed (`except CancelTask` inside the task; they arrive in the order of the requests)
+    let swallowed := (o.events.filter (fun e => e.label == t && e.tag == "caught" && arg e 0 == 10)).length
+    let runningToks := cancelRunning.map (fun e => arg e 2)
+    fail (caughtTok.any (fun k => (runningToks.take swallowed).contains k && !(runningToks.drop swallowed).contains k))
+      s!"task {t}: awaiters saw TaskCancelled with token {caughtTok}, but the task swallowed the cancellation(s) {runningToks.take swallowed} and went on" ++
     fail (caughtTok.any (fun k => !(effective.map (fun e => arg e 2)).contains k))
       s!"task {t}: an awaiter saw TaskCancelled with token {caughtTok}, but only the cancels {effective.map (fun e => arg e 2)} were issued while the task was unfinished" ++
     (match effective.head? with
@@ -244,7 +249,7 @@ def judgeC06 (o : Obs) : Verdict :=
     -- its clean-up code starts there
     (idx o).flatMap (fun p =>
       if p.1.tag == "cancel" && arg p.1 0 == t && arg p.1 1 == 2 && ran then
-        let later := (idx o).filter (fun q => q.2 > p.2 && q.1.label == t && (q.1.tag == "tfin" || q.1.tag == "cleanup"))
+        let later := (idx o).filter (fun q => q.2 > p.2 && q.1.label == t && (q.1.tag == "tfin" || q.1.tag == "cleanup" || (q.1.tag == "caught" && arg q.1 0 == 10)))
         let finishedBefore := (idx o).any (fun q => q.2 < p.2 && q.1.label == t && q.1.tag == "tfin")
         fail (!finishedBefore && o.crash == [] && !(later.any (fun q => q.1.time == p.1.time)))
           s!"task {t} was cancelled at {p.1.time} while running but nothing was raised in it in that time step"
@@ -415,16 +420,21 @@ def judgeC10 (o : Obs) : Verdict :=
 def judgeC11 (o : Obs) : Verdict :=
   (idx o).flatMap (fun p =>
     let e := p.1
-    if e.tag == "csub" then
+    if e.tag == "csub" && arg e 2 ≥ 0 then
       let c := arg e 0
-      -- the consumer's window: until its next csub / cend / the end of the trace
-      let stop := ((idx o).find? (fun q => q.2 > p.2 && q.1.label == e.label && (q.1.tag == "csub" || q.1.tag == "cend"))).map (·.2) |>.getD o.events.length
+      let sid := arg e 2
+      let mine (x : Ev) := x.args.length == 3 && arg x 1 == c && arg x 2 == sid
+      -- the subscription's window: until its `cend` (the channel was closed and drained), its `cleave`
+      -- (the loop was left) or the end of the trace.  Subscriptions are numbered per channel, so an
+      -- activity may hold several at once (an `await channel` inside an `async for` over the same channel)
+      let stop := ((idx o).find? (fun q => q.2 > p.2 && (q.1.tag == "cend" || q.1.tag == "cleave") &&
+        arg q.1 0 == c && arg q.1 1 == sid)).map (·.2) |>.getD o.events.length
       let rejected := o.events.filterMap (fun x => if x.tag == "cputrej" && arg x 0 == c then some (arg x 1) else none)
       let puts := (idx o).filterMap (fun q =>
         if q.2 > p.2 && q.1.tag == "cputreq" && arg q.1 0 == c && !rejected.contains (arg q.1 1) then some (arg q.1 1, q.2) else none)
-      let allPuts := o.events.filterMap (fun x => if x.tag == "cputreq" && arg x 0 == c then some (arg x 1) else none)
       let got := (idx o).filterMap (fun q =>
-        if q.2 > p.2 && q.2 < stop && q.1.label == e.label && q.1.tag == "got" && allPuts.contains (arg q.1 0) then some (arg q.1 0) else none)
+        if q.2 > p.2 && q.2 < stop && q.1.tag == "got" && mine q.1 then some (arg q.1 0) else none)
+      let strays := (idx o).any (fun q => (q.2 < p.2 || q.2 > stop) && q.1.tag == "got" && mine q.1)
       let expected := puts.map (·.1)
       let ended := (idx o).any (fun q => q.2 == stop && q.1.tag == "cend")
       let putsBeforeEnd := (puts.filter (fun x => x.2 < stop)).map (·.1)
@@ -433,9 +443,18 @@ def judgeC11 (o : Obs) : Verdict :=
         | some (n, ni) => arg e 1 == 0 && ((n.tag == "caught" && arg n 0 == 4) || (n.tag == "tfin" && arg n 0 == 3 && arg n 1 == 4)) &&
             puts.any (fun x => x.2 < ni)
         | none => false
+      -- liveness: when the run ends normally while the subscription still waits for its next message (the last
+      -- thing its activity did is to subscribe / to ask for the next message), nothing that was put is outstanding
+      let waitingAtEnd := o.crash == [] && stop == o.events.length &&
+        (match (ofLabel o e.label).getLast? with
+          | some (n, ni) => ni == p.2 || (n.tag == "cnext" && arg n 0 == c && arg n 1 == sid)
+          | none => false)
+      fail (waitingAtEnd && got != expected) s!"channel {c}: subscription {sid} of consumer {e.label} still waits at the end of the run with {got} although {expected} were put" ++
       fail closedEarly s!"channel {c}: `await channel` of {e.label} raised StreamClosed although a message was put while it waited" ++
-      fail (got != expected.take got.length) s!"channel {c}: consumer {e.label} got {got}, messages put after it subscribed: {expected}" ++
-      fail (arg e 1 == 1 && ended && got != putsBeforeEnd) s!"channel {c}: consumer {e.label} ended after close with {got} but {putsBeforeEnd} were put"
+      fail strays s!"channel {c}: subscription {sid} of {e.label} received a message outside its lifetime" ++
+      fail (arg e 1 == 0 && got.length > 1) s!"channel {c}: `await channel` of {e.label} returned more than once: {got}" ++
+      fail (got != expected.take got.length) s!"channel {c}: subscription {sid} of consumer {e.label} got {got}, messages put after it subscribed: {expected}" ++
+      fail (arg e 1 == 1 && ended && got != putsBeforeEnd) s!"channel {c}: subscription {sid} of consumer {e.label} ended after close with {got} but {putsBeforeEnd} were put"
     else [])
 
 /-! ### C12 - Resources -/
@@ -459,7 +478,9 @@ increase/decrease (no set), every borrow block left -/
 def judgeC12Conservation (o : Obs) (r : Nat) (init : List Int) : Verdict :=
   let add (a b : List Int) := (a.zip b).map (fun p => p.1 + p.2)
   let sub (a b : List Int) := (a.zip b).map (fun p => p.1 - p.2)
-  let changed := o.events.foldl (fun acc e =>
+  -- (a change the supply refused - `resrej` is the next thing its activity does - is no change)
+  let refused (p : Ev × Nat) : Bool := ((ofLabel o p.1.label).find? (fun q => q.2 > p.2)).any (fun q => q.1.tag == "resrej")
+  let changed := ((idx o).filter (fun p => !refused p)).map (·.1) |>.foldl (fun acc e =>
     if e.tag == "reschange" && arg e 0 == r then
       (if arg e 1 == 0 then add acc (e.args.drop 2) else if arg e 1 == 1 then sub acc (e.args.drop 2) else acc)
     else acc) init
@@ -707,7 +728,10 @@ def pyOutcome (o : Obs) (infos : List PyInfo) (envStart : Rat) : Nat → Int →
         let known := outs.filterMap id
         let failed := known.filter (fun t => t.2.headD 0 == 1)
         let clamp (t : Rat) : Rat := ratMax t (ratMax inf.created envStart)
-        if inf.members.isEmpty then some (clamp inf.created, [2])     -- `all([])`, and simpy's `any_events` of nothing
+        -- code `[3]`: the outcome depends on the order of activations inside one time step (see any_of below); whatever
+        -- is built on such a member is not judged
+        if known.any (fun t => t.2 == [3]) then some (clamp inf.created, [3])
+        else if inf.members.isEmpty then some (clamp inf.created, [2])     -- `all([])`, and simpy's `any_events` of nothing
         else if inf.kind == 3 then
           -- all_of: fails with the first member failure, else fires with the last member
           match failed.foldl (fun (m : Option (Rat × List Int)) t => match m with
@@ -723,7 +747,12 @@ def pyOutcome (o : Obs) (infos : List PyInfo) (envStart : Rat) : Nat → Int →
           match known.foldl (fun (m : Option (Rat × List Int)) t => match m with
               | some b => if t.1 < b.1 then some t else some b
               | none => some t) none with
-          | some f => some (clamp f.1, if f.2.headD 0 == 1 then f.2 else [2])
+          | some f =>
+            -- (several members in the earliest time step, not all of them successes: which one the condition sees
+            -- first is decided by the order of activations inside the step - not judged here)
+            let tied := known.filter (fun t => t.1 == f.1)
+            if tied.length > 1 && tied.any (fun t => t.2.headD 0 == 1) then some (clamp f.1, [3])
+            else some (clamp f.1, if f.2.headD 0 == 1 then f.2 else [2])
           | none => none
 
 /-- position in the trace at which a plain event / a process is triggered (0: unknown) -/
@@ -776,7 +805,7 @@ def judgeC18 (o : Obs) : Verdict :=
       let valueLike : Bool := (mine.find? (fun y => y.1.tag == "pyyield" && arg y.1 0 == arg r.1 0 && y.2 < r.2)).any (fun y =>
         (match out (arg y.1 1) with
          | some (t, code) => code == r.1.args.drop 1 && r.1.time == ratMax y.1.time t && r.2 > pyTriggerPos o infos (arg y.1 1)
-         | none => false) || memberFailure (arg y.1 1) (r.1.args.drop 1) r.1.time)
+         | none => false) || memberFailure (arg y.1 1) (r.1.args.drop 1) r.1.time || (out (arg y.1 1)).any (fun x => x.2 == [3]))
       match calls[st.1]? with
       | some c =>
         if c.2 < r.2 && arg c.1 1 == arg r.1 3 then (st.1 + 1, st.2.1 ++ [(r, c)], st.2.2)
@@ -812,6 +841,7 @@ def judgeC18 (o : Obs) : Verdict :=
         else match out target with
           | none => [s!"process {pr.proc} resumed at {r.1.time} from waiting for event {target}, which never triggered"]
           | some (t, code) =>
+            if code == [3] then [] else
             let isCond := (infos.find? (·.idx == target)).any (fun inf => inf.kind == 3 || inf.kind == 4)
             let tmembers : List Int := ((infos.find? (·.idx == target)).map (·.members)).getD []
             let sameTimeMembers : Bool := isCond && tmembers.any (fun m =>
@@ -861,7 +891,8 @@ def judgeC18 (o : Obs) : Verdict :=
     fail (ran.length > added.length) s!"event {inf.idx}: {ran.length} callback invocations for {added.length} callbacks" ++
     fail (!(ran.all (fun r => added.any (fun a => arg a 1 == arg r 0)))) s!"event {inf.idx}: a callback ran that was never added" ++
     (match out inf.idx with
-     | some (t, _) =>
+     | some (t, code) =>
+       if code == [3] then [] else
        fail (ran.any (fun r => r.time != t)) s!"event {inf.idx} triggers at {t} but callbacks ran at {ran.map (·.time)}" ++
        (match o.events.find? (·.tag == "pydone") with
         | some d => fail (t < d.time && ran.length != added.length) s!"event {inf.idx} triggered at {t}: {ran.length} of {added.length} callbacks ran"
